@@ -150,6 +150,15 @@ uint32_t ll_bcmp(uint8_t* a, uint8_t* b, uint64_t n) { return (uint32_t)memcmp(a
 uint64_t ll_strlen(uint8_t* a) { return strlen((char*)a); }
 uint64_t ll_strnlen(uint8_t* a, uint64_t n) { uint64_t i = 0; while (i < n && a[i]) i++; return i; }
 uint32_t ll_strcmp(uint8_t* a, uint8_t* b) { return (uint32_t)strcmp((char*)a, (char*)b); }
+void ll_abort(void) {
+#ifdef __CPROVER__
+  __CPROVER_assert(0, "abort() in code under test reached");
+  __CPROVER_assume(0);
+#else
+  extern void verif_native_assert(int, const char*);
+  verif_native_assert(0, "abort() in code under test reached");
+#endif
+}
 void ll___assert_fail(uint8_t* a, uint8_t* f, uint32_t l, uint8_t* fn) {
 #ifdef __CPROVER__
   __CPROVER_assert(0, "assert() in code under test failed");
@@ -160,8 +169,16 @@ void ll___assert_fail(uint8_t* a, uint8_t* f, uint32_t l, uint8_t* fn) {
 #endif
 }
 
-uint8_t* ll_memcpy(uint8_t* d, uint8_t* s, uint64_t n) { for (uint64_t i = 0; i < n; i++) d[i] = s[i]; return d; }
+/* opt-in -DVERIF_MEMCPY_TYPED (harness defines): 2- and 4-byte copies are one typed load/store. Bytes copied one at a time into an integer object
+   (stream deserialisation of LE16/LE32 fields through a non-inlined read(span)) are never constant-propagated by symex; a typed copy of constant bytes is. */
+#if defined(__CPROVER__) && defined(VERIF_MEMCPY_TYPED)
+#define VERIF_SMALL_COPY(d, s, n) if ((n) == 4) { *(uint32_t*)(d) = *(uint32_t*)(s); return (d); } else if ((n) == 2) { *(uint16_t*)(d) = *(uint16_t*)(s); return (d); }   /* no do-while: loop numbering (ll_memcpy.0) must not change */
+#else
+#define VERIF_SMALL_COPY(d, s, n)
+#endif
+uint8_t* ll_memcpy(uint8_t* d, uint8_t* s, uint64_t n) { VERIF_SMALL_COPY(d, s, n) for (uint64_t i = 0; i < n; i++) d[i] = s[i]; return d; }
 uint8_t* ll_memmove(uint8_t* d, uint8_t* s, uint64_t n) {
+  VERIF_SMALL_COPY(d, s, n)
 #ifdef __CPROVER__
   int fwd = __CPROVER_same_object(d, s) ? (__CPROVER_POINTER_OFFSET(d) <= __CPROVER_POINTER_OFFSET(s)) : 1;
 #else
